@@ -2,7 +2,7 @@
 # usage: confirm_seed.sh <Cxx> [name]   — confirm a seeded change delivered in /tmp/mut/<Cxx>_out using the scratch worktree /tmp/mut/<Cxx>
 # checks: patch applies; whole suite passes with it; demo fails with it; demo passes without it.  Result → /verif/seeded/<name>/
 set -u
-P=$1; NAME=${2:-$P}; WT=/tmp/mut/$P; OUT=/tmp/mut/${P}_out; DST=/verif/seeded/$NAME
+P=$1; NAME=${2:-$P}; MUT=${MUT:-/tmp/mut}; WT=$MUT/$P; OUT=$MUT/${P}_out; DST=/verif/seeded/$NAME
 export CARGO_NET_OFFLINE=true CARGO_TARGET_DIR=$WT/target
 cd $WT || exit 2
 git checkout -q -- . ; git clean -fdq crates
